@@ -259,6 +259,24 @@ func init() {
 			}
 		}
 	}
+	// (C09 continued) every value kind at every member position, failing call at every index
+	c09more := suites["c09"]
+	suites["c09"] = func(e *emitter, r *rng, thorough bool) {
+		c09more(e, r, thorough)
+		vals := []string{"0", "0.5", "0e1", "-0", "1", "12", "-1.5", "true", "false", "null", `"s"`, `""`, "[]", "[1]", "{}", `{"a":0}`, `[[0]]`}
+		offs := []string{"0", "1", "-1", "3", "100", "-100", "9223372036854775807", "-9223372036854775808"}
+		for _, v1 := range vals {
+			for _, v2 := range vals {
+				arr := "[" + v1 + "," + v2 + "," + r.pick(vals) + "]"
+				obj := `{"a":` + v1 + `,"b":` + v2 + `,"c":` + r.pick(vals) + "}"
+				for k := 0; k < 3; k++ {
+					sc := strings.Repeat(r.pick([]string{"0,", "x,"}), k) + "e" + r.pick(offs)
+					e.emit("harr %s %s %s", hs([]byte(arr)), sc, r.stack())
+					e.emit("hobj %s %s %s", hs([]byte(obj)), sc, r.stack())
+				}
+			}
+		}
+	}
 	// C10: hostile handler returns, junk stacks, every entry point
 	suites["c10"] = func(e *emitter, r *rng, thorough bool) {
 		hostile := []string{"-9223372036854775808", "-4294967296", "-1", "0", "1", "2", "3", "x", "2147483648", "4294967296",
